@@ -47,6 +47,7 @@ class HistoryRun(object):
     # feed InitNewDoc's stored actions to the replica
     self._init_replica()
     self.setup = setup
+    self.extra_oracles = []
     self.tie = tie
     if tie is not None:
       tie.init(self.doc)
@@ -93,6 +94,8 @@ class HistoryRun(object):
       if "direct" in self.oracles:
         if len(res.direct) != len(res.stored):
           self._find("C31", "direct list not parallel to stored", "%d vs %d" % (len(res.direct), len(res.stored)), rec)
+      for f in self.extra_oracles:
+        f(self, rec)
       if "undo" in self.oracles and res.undo is not None:
         self._o_undo_redo(rec, before, after)
     else:
@@ -102,6 +105,63 @@ class HistoryRun(object):
       if "failed" in self.oracles:
         self._o_failed(rec, before, schema_before)
     return rec
+
+  def apply_with_faults(self, uas, kinds=(), max_sites=10):
+    """Fault enumeration (C04): re-run the bundle with an injected exception at site k = 0, 1, ..
+    (each faulted run must leave no trace), until a run completes without the fault firing; that
+    run is the real application of the bundle."""
+    k = 0
+    stride = 1
+    while True:
+      fault = ed.FaultAt(k)
+      doc = self.doc
+      before = doc.snapshot()
+      schema_before = doc.engine_schema()
+      ed.REC.fault = fault
+      try:
+        res = self._raw(uas)
+      finally:
+        ed.REC.fault = None
+      if fault.fired is None or res.ok:
+        # the real application (or the fault was swallowed, e.g. inside a formula evaluation)
+        self.stats["bundles"] += 1
+        rec = {"actions": uas, "kinds": list(kinds), "res": res, "before": before,
+               "log_index": len(self.log) - 1}
+        self.bundles.append(rec)
+        if fault.fired is not None:
+          self.stats["faults_swallowed"] = self.stats.get("faults_swallowed", 0) + 1
+        if res.ok:
+          self.stats["ok"] += 1
+          self.gen.past = [(res.raw_stored, res.raw_undo)]
+          rec["after"] = doc.snapshot()
+          if "replica" in self.oracles:
+            self._o_replica(rec, rec["after"])
+          if "schema" in self.oracles:
+            self._o_schema(rec, "after successful bundle")
+        else:
+          self.stats["rejected"] += 1
+          self.stats["errors"][res.error[0]] = self.stats["errors"].get(res.error[0], 0) + 1
+          self._o_failed(rec, before, schema_before)
+        return rec
+      # a faulted run: the bundle raised because of the injected exception
+      self.stats["faulted_runs"] = self.stats.get("faulted_runs", 0) + 1
+      site = "%s %s" % fault.fired
+      self.stats.setdefault("fault_sites", {})
+      self.stats["fault_sites"][site] = self.stats["fault_sites"].get(site, 0) + 1
+      rec = {"actions": uas, "kinds": list(kinds) + ["fault:" + site], "res": res, "before": before,
+             "log_index": len(self.log) - 1, "fault": [k, site]}
+      if any(st[0] == "doc" and st[3] == "ok" for st in (res.steps or [])):
+        rec["nontrivial"] = True
+        rec["actions"] = [uas, site, k]
+      self.bundles.append(rec)
+      n0 = len(self.findings)
+      self._o_failed(rec, before, schema_before, fault=[k, site])
+      if len(self.findings) > n0:
+        rec["abandon"] = True
+        return rec
+      k += stride
+      if k >= max_sites:
+        stride = 3      # beyond the first sites, sample every third one
 
   def _find(self, prop, sig, detail, rec, extra=None):
     rp = self.replay_obj()
@@ -208,20 +268,26 @@ class HistoryRun(object):
     # keep "past" pointing at the redo bundle (its undo is what undoes the current state)
     self.gen.past = [(r.raw_stored, r.raw_undo)]
 
-  def _o_failed(self, rec, before, schema_before):
+  def _o_failed(self, rec, before, schema_before, fault=None):
     doc = self.doc
     now = doc.snapshot()
     d = ed.diff_snapshots(before, now)
+    extra = {"fault": fault} if fault else None
+    cause = classify_failed(rec, fault, doc) or (NUMERIC_NORMALISED_SIG if d and numeric_only(d) else None)
+    tag = (" (injected fault at %s)" % fault[1]) if fault else ""
     if d:
-      self._find("C04", classify_diff("failed-bundle", d[0], rec), "; ".join(d[:3]), rec)
+      self._find("C04", (cause or classify_diff("failed-bundle", d[0], rec) + tag), "; ".join(d[:3]), rec, extra)
     if doc.engine_schema() != schema_before:
-      self._find("C04", "engine schema changed by a rejected bundle", rec["res"].error[0], rec)
+      self._find("C04", cause or ("engine schema changed by a rejected bundle" + tag), rec["res"].error[0], rec, extra)
     self._o_schema(rec, "after rollback")
     c = self._raw([["Calculate"]])
     if not c.ok:
-      self._find("C04", "Calculate fails after a rejected bundle: " + c.error[0], c.error[1], rec)
+      self._find("C04", cause or ("Calculate fails after a rejected bundle: " + c.error[0] + tag), c.error[1], rec, extra)
     elif c.stored:
-      self._find("C04", "Calculate emits changes after a rejected bundle", json.dumps(c.stored[:2])[:300], rec)
+      if cause is None and all("_summary" in a[1] for a in c.stored):
+        cause = SUMMARY_STALE_SIG
+      self._find("C04", cause or ("Calculate emits changes after a rejected bundle" + tag),
+                 json.dumps(c.stored[:2])[:300], rec, extra)
       if "replica" in self.oracles:
         for a in c.stored:
           self.replica.apply(a)
@@ -245,11 +311,72 @@ class HistoryRun(object):
       uas, kinds = gen.bundle(self.doc)
       if not uas:
         continue
-      rec = self.apply(uas, kinds)
+      if "faults" in self.oracles:
+        rec = self.apply_with_faults(uas, kinds)
+      else:
+        rec = self.apply(uas, kinds)
       if rec.get("abandon") or rec.get("undo_failed"):
         break
     self.end()
     return self
+
+
+NUMERIC_NORMALISED_SIG = ("failed-bundle: rollback of a type change re-normalises a number that an earlier type change "
+                          "had left stored with another numeric type (e.g. 0.0 in a Bool column becomes False)")
+SUMMARY_STALE_SIG = ("after a rolled-back bundle that touched a summary table's source, the next Calculate removes and "
+                     "re-adds or updates summary rows (auto-remove marks / dirty summary cells survive the rollback)")
+
+
+def _numval(t):
+  if isinstance(t, bool):
+    return float(t)
+  if isinstance(t, str) and t[:1] in "if":
+    try:
+      return float(t[1:])
+    except ValueError:
+      return None
+  return None
+
+
+def numeric_only(diffs):
+  """All differences are cells whose two values are numerically equal (True/1/1.0)."""
+  import re
+  for d in diffs:
+    m = re.match(r"cell \S+: (.*) vs (.*)$", d)
+    if not m:
+      return False
+    try:
+      a, b = eval(m.group(1)), eval(m.group(2))
+    except Exception:
+      return False
+    va, vb = _numval(a), _numval(b)
+    if va is None or vb is None or va != vb:
+      return False
+  return True
+
+
+def classify_failed(rec, fault, doc):
+  """Specific cause classes of a rejected bundle that left a trace (None = unclassified)."""
+  steps = rec["res"].steps or []
+  kinds = [st[0] for st in steps]
+  if "rollback" not in kinds and any(k in ("doc", "calc") for k in kinds):
+    return ("exception in a doc action performed after the try block of apply_user_actions "
+            "(recalculation / auto-removes): no rollback is attempted")
+  docs = [st for st in steps if st[0] == "doc"]
+  pre = []
+  for st in steps:
+    if st[0] == "rollback":
+      break
+    if st[0] == "doc":
+      pre.append(st)
+  if fault and fault[1].startswith("usercode") and pre and pre[-1][3] == "raised" \
+      and pre[-1][1][0] in ("ModifyColumn",):
+    return ("exception from rebuild_usercode inside the %s doc action: the column's data is lost "
+            "(the restored schema gets a fresh column object)" % pre[-1][1][0])
+  if any(st[1][0] == "ReplaceTableData" and st[3] == "ok" for st in pre):
+    return ("rollback of ReplaceTableData leaves the table's formula columns at their defaults until the "
+            "next calculation (its undo action carries data columns only)")
+  return None
 
 
 DRIFT_SIG = ("%s: formula cells differ because a type change left numbers that differ only in int-vs-float "
